@@ -18,7 +18,8 @@ RULE = ("(a) matcher histories: for every selector of Ssel and every sequence of
         "class). (b) adapters: 12 reader configurations x all record sequences <=3 over 4 record values x selectors x {text, Selector, "
         "CompiledSelector}: list(reader(selector=s)) == [r for r in reader() if fresh.match(r)] on obs incl. position/class of an "
         "exception. (c) selector pairs: every (first, second) of (raising programs + Ssel) x 13 probes on the same record object, the second "
-        "result against the reference meaning. non-trivial = history longer than 1 / non-empty sequence")
+        "result against the reference meaning. (d) long runs: one selector matched 130 (300) times on one record and alternately on every "
+        "ordered pair of records, every result equal to the first. non-trivial = history longer than 1 / non-empty sequence")
 
 SSEL = (
     selgrammar.GENS
@@ -105,9 +106,41 @@ def run_pair(case):
     return {"ev": 4, "h": h, "nt": True, "out": outs, "viol": viol, "count": {"match_events": 4}}
 
 
+def run_long(case):
+    """ONE selector object matched 130 times on one record, or alternately on two: every result must equal the first one obtained for
+    that record (a counter, a depth guard or a cache that creeps with the number of matches or of raised evaluations shows here)."""
+    from flow.record.selector import CompiledSelector, Selector
+
+    h = jhash(case)
+    expr, idx, n = case["expr"], case["recs"], case["n"]
+    rr = hist_records()
+    viol = []
+    outs = []
+    for engine, cls in (("interpreted", Selector), ("compiled", CompiledSelector)):
+        try:
+            sel = cls(expr)
+        except Exception:  # noqa: BLE001
+            outs.append("ctor-raises")
+            continue
+        first = {}
+        for k in range(n):
+            i = idx[k % len(idx)]
+            got = result_of(sel, rr[i])
+            if i not in first:
+                first[i] = got
+            elif got != first[i]:
+                viol.append(("C10:result-drifts-with-repetition:%s:%s->%s" % (engine, "".join(map(str, first[i]))[:12], "".join(map(str, got))[:12]), case,
+                             {"expr": expr, "records": idx, "repetition": k, "first": first[i], "now": got}))
+                break
+        outs.append("long:%s:%s" % (engine[0], "/".join(sorted({v[0] for v in first.values()}))))
+    return {"ev": 2 * n, "h": h, "nt": True, "out": outs, "viol": viol, "count": {"match_events": 2 * n}}
+
+
 def run_case(case):
     if case["kind"] == "hist":
         return run_hist(case)
+    if case["kind"] == "long":
+        return run_long(case)
     if case["kind"] == "pair":
         return run_pair(case)
     return run_adapter(case)
@@ -338,6 +371,14 @@ def cases(tier):
         for k in range(1, L + 1):
             for hist in itertools.product(range(nrec), repeat=k):
                 yield {"kind": "hist", "expr": expr, "hist": list(hist)}
+    reps = 300 if tier == "thorough" else 130
+    for expr in list(SSEL) + RAISERS + selgrammar.LONG_LITERALS[:6]:
+        for i in range(nrec):
+            yield {"kind": "long", "expr": expr, "recs": [i], "n": reps}
+    for expr in RAISERS + selgrammar.GENS + ["r.n > 1000 or r.s == 'a'", "r.none > 5 or r.n == 1", "r.none < r.n and r.s == 'a'", "r.zz > 1 or r.n == 1", "not r.none > 1"]:
+        for i, j in itertools.product(range(nrec), repeat=2):
+            if i != j:
+                yield {"kind": "long", "expr": expr, "recs": [i, j], "n": reps}
     for e1 in RAISERS + list(SSEL)[:: (1 if tier == "thorough" else 4)]:
         for e2 in AFTER:
             for i in range(nrec):
